@@ -30,12 +30,15 @@ calls (`C20_generator`: non-interference + closed form; `C20_words_generator`,
 `C20_iter_generator`, `C20_succ_generator`).  `minify()` (partial DFA) and `to_partial()` read
 `_get_digraph()` through the memo (`Query.minify`, `Query.toPartial`); the rest of their body is a
 function `Ext.viaGraph` of the definition and of the graph object they got.
+NFAs (`_get_lambda_closures`, Model/NFACache.lean): `nstep` threads the memo through every reader;
+`C20_nfa_step`, `C20_nfa_history`, `C20_nfa_fresh` are the same three statements for NFA objects.
 Queries that never touch the caches (`==`, `<=`, `issubset`, `isdisjoint`, `complement`, …) are the
 opaque constructor `Query.other`: for them the statement is about the model's claim that they
 do not read or write the caches, which the correspondence run checks on the real object.
 -/
 import AutomataVerif.Proofs.Cache
 import AutomataVerif.Proofs.CacheGen
+import AutomataVerif.Proofs.NFACache
 
 namespace AV.Props.C20
 open AV AV.DFA AV.DFA.CacheGen
@@ -447,6 +450,57 @@ theorem C20_iter_generator (d : DFA σ α) (key : α → Int) (ext : Ext σ) (s 
   show nextAnswers s.gens.length qs (d.runHistory key ext s' qs) = _
   rw [h1, ← length_nextFuels]
   exact solo_total d key _ _ (by rw [← h1]; exact hno) n0 hend
+
+/-! ## the NFA half: the `_get_lambda_closures` memo (Model/NFACache.lean) -/
+
+section nfa
+open AV.NFA.CacheProofs
+
+/-- Every public call on an NFA instance keeps the memo coherent (`NMemoOK`: the closure table,
+once cached, is the table computed from the definition) and answers exactly like the stateless
+reference, which computes every λ-closure from the definition (Model/NFA.lean). -/
+theorem C20_nfa_step (n : NFA σ α) (ext : NFA.NExt σ) (s : NFA.NInst σ) (h : NMemoOK n s)
+    (q : NFA.NQuery α) :
+    NMemoOK n (n.nstep ext s q).1 ∧ (n.nstep ext s q).2 = n.nstepPure ext q :=
+  nstep_sim ext h q
+
+theorem nfa_history_from (n : NFA σ α) (ext : NFA.NExt σ) (qs : List (NFA.NQuery α)) :
+    ∀ (s : NFA.NInst σ), NMemoOK n s →
+      n.nrunHistory ext s qs = qs.map (n.nstepPure ext) ∧ NMemoOK n (n.nafterHistory ext s qs) := by
+  induction qs with
+  | nil => intro s h; exact ⟨rfl, h⟩
+  | cons q qs ih =>
+    intro s h
+    have h1 := nstep_sim ext h q
+    have h2 := ih _ h1.1
+    exact ⟨by simp only [NFA.nrunHistory, List.map_cons, h1.2, h2.1], h2.2⟩
+
+/-- **NFA, every finite history**: whatever calls are made on one NFA object, in whatever order
+(acceptance, stepwise reading, `==`, `DFA.from_nfa`, `eliminate_lambda`, …), each answer is the
+answer of the stateless reference — it does not depend on what was asked before. -/
+theorem C20_nfa_history (n : NFA σ α) (ext : NFA.NExt σ) (qs : List (NFA.NQuery α)) :
+    n.nrunHistory ext NFA.NInst.fresh qs = qs.map (n.nstepPure ext) :=
+  (nfa_history_from n ext qs _ (nmemoOK_fresh n)).1
+
+/-- **NFA, fresh = after any history**. -/
+theorem C20_nfa_fresh (n : NFA σ α) (ext : NFA.NExt σ) (hist : List (NFA.NQuery α)) (q : NFA.NQuery α) :
+    (n.nstep ext (n.nafterHistory ext NFA.NInst.fresh hist) q).2 = (n.nstep ext NFA.NInst.fresh q).2 := by
+  rw [(nstep_sim ext (nfa_history_from n ext hist _ (nmemoOK_fresh n)).2 q).2,
+    (nstep_sim ext (nmemoOK_fresh n) q).2]
+
+/-- `0 -λ→ 1 -a→ 1`, `1` final; state `2` only occurs as a target (reading `b` from it is fine,
+reaching it asks for `lambda_closures[2]`: `KeyError` — kept explicit). -/
+def exN : NFA Nat Nat :=
+  { states := [0, 1], syms := [0, 1], trans := [(0, [(none, [1])]), (1, [(some 0, [1]), (some 1, [2])])],
+    init := 0, finals := [1] }
+
+example :
+    exN.nrunHistory { other := id, viaTable := fun t tbl => t + tbl.length } NFA.NInst.fresh
+      [.accepts [0, 0], .readStepwise [0], .viaClosures 5, .accepts [1], .readStepwise []] =
+      [.bool true, .configs [[0, 1], [1]] none, .opaque 7, .exn (.py .keyError),
+       .configs [[0, 1]] none] := by decide
+
+end nfa
 
 /-! ### non-vacuity: a concrete DFA and a concrete history -/
 
